@@ -288,6 +288,10 @@ def run_case(kind, p):
         return refine_kernel_case(p)
     rng = np.random.default_rng(p["seed"])
     pattern = impl.pattern_from(p["pattern"])
+    if p.get("negate") and hasattr(pattern, "template"):
+        # a user template with negative weights only (a "dark spot"): every correlation value is <= 0; the height is still the
+        # maximum over the window and the centre the place where it is attained
+        pattern.template = -np.abs(pattern.template) - np.float32(0.125)
     c = pattern.get_crop_size()
     frame = impl.noise_frame(rng, tuple(p["shape"]), p["frame_kind"])
     if p.get("pedestal"):
@@ -319,6 +323,8 @@ def run_case(kind, p):
 
 def gen_case(rng, k):
     pat = impl.pattern_params(rng, rmin=2.0, rmax=6.0)
+    if k % 10 == 7:
+        pat = {"kind": "user", "radius": pat["radius"], "search": float(np.round(pat["radius"] * rng.uniform(1.3, 2.2), 2))}
     if pat["kind"] == "rgbs":
         pat["kind"] = "background_subtraction"   # RGBS is not centro-symmetric about shape//2 on odd shapes (C16 scope)
     c = int(np.ceil(pat["search"]))
@@ -329,7 +335,7 @@ def gen_case(rng, k):
     return {"seed": int(rng.integers(1 << 30)), "pattern": pat, "shape": shape,
             "frame_kind": ("poisson", "gauss", "disks", "hot")[k % 4], "peaks": peaks.tolist(),
             "b": int(rng.integers(1, n + 2)), "pipelines": ["fast", "full"],
-            "buf_layout": [None, "window", None, "transposed"][(k // 3) % 4],
+            "buf_layout": [None, "window", None, "transposed"][(k // 3) % 4], "negate": (k // 2) % 3 == 1 or k % 10 == 7,
             "pedestal": (0.0, 0.0, 2.0 ** 24 + 2, 0.0, -3e9, 2.0 ** 25, 1e6, float(2 ** int(rng.integers(24, 31))))[(k // 4) % 8]
             if k % 4 != 3 else 0.0}
 
